@@ -55,8 +55,10 @@ def fresh_name(rng, used):
             n = a + d + rng.choice('kqxz')
         elif k < 0.7:
             n = '%s%s-%s%d' % (a, d[0], rng.choice('abcxyz'), rng.randint(0, 9))
-        else:
+        elif k < 0.9:
             n = '%s%s_%s%d' % (a, d[0], rng.choice('abcxyz'), rng.randint(0, 9))
+        else:
+            n = '%s%s%s%s%s%d' % (a, d[0], rng.choice('-_'), rng.choice('abcxyz'), rng.choice('-_'), rng.randint(0, 9))
         key = n.replace('_', '-')
         if key not in used:
             used.add(key)
@@ -535,7 +537,7 @@ def rw_extract(prog, opts, rng):
     if not sites:
         return prog, opts, None
     where = set()
-    for body, s, ctx in rng.sample(sites, min(len(sites), rng.randint(1, 3))):
+    for body, s, ctx in rng.sample(sites, 1):             # one site per step: the step's description stays simple
         v = new_id(prog, rng)
         E = s[2] if s[0] == 'decl' else s[1]
         hoist = constant(E) and ctx != 'top' and rng.random() < 0.5
@@ -565,7 +567,7 @@ def rw_debug(prog, opts, rng):
     prog = copy.deepcopy(prog)
     bodies = list(walk_bodies(prog))
     where = set()
-    for body, ctx in rng.sample(bodies, min(len(bodies), rng.randint(1, 4))):
+    for body, ctx in rng.sample(bodies, 1):
         limit = len(body)
         if ctx == 'func':
             # never after an @return of the same statement list
@@ -792,7 +794,7 @@ def corpus_apply(src, steps):
                 else:
                     ins[pos] = rng.choice([' // c35\n', '\n// a { b: c; }\n', ' //\n', ' // "q\n'])
                 chars.add('after-' + {';': 'semicolon', '{': 'open-brace', '}': 'close-brace'}[src[pos - 1]])
-            site = '+'.join(sorted(chars))
+            site = 'statement-boundary'
         elif kind == 'widen':
             us = [p for p, head in nls if src[p - 1:p] != '\\' and widenable(src, head)]
             if not us:
@@ -807,7 +809,7 @@ def corpus_apply(src, steps):
                 return None, sites
             ins = {}
             chars = set()
-            for pos in rng.sample(us, min(len(us), rng.randint(1, 3))):
+            for pos in rng.sample(us, 1):
                 word = rng.choice(['debug', 'warn'])
                 ins[pos] = ' @%s "c35";' % word
                 chars.add(word)
@@ -903,7 +905,7 @@ def report(ctx, case, before, after, files_before, files_after, step, site, cls)
                               'before': files_before, 'after': files_after, 'result_before': text(before), 'result_after': text(after)})
 
 
-def run_batch(ctx, cases):
+def run_batch(ctx, cases, bad=None):
     """cases: dicts with source, prog|src, steps.  Compiles each original once and every rewritten source, judges."""
     jobs, meta, origs = [], [], {}
     for c in cases:
@@ -928,6 +930,8 @@ def run_batch(ctx, cases):
         st = base.get('status')
         ctx.stat('original:%s:%s' % (c['source'], st))
         if c['source'] == 'corpus' and st != 'ok':
+            if bad is not None:
+                bad.add(c['src'])
             continue
         if st in ('ok', 'err'):
             ctx.nontrivial(files)
@@ -944,7 +948,11 @@ def check_case(ctx, case):
 
 
 def random_steps(rng, kinds):
-    return [[rng.choice(kinds), rng.randrange(1 << 30)] for _ in range(rng.randint(1, 4))]
+    steps = [[rng.choice(kinds), rng.randrange(1 << 30)] for _ in range(rng.choice([1, 2, 3, 3, 4, 4]))]
+    # for generated programs the steps that only change the rendering (swap, ws) go last: they commute with the others, and
+    # the step that first changes the result is then the one to blame
+    steps.sort(key=lambda st: {'swap': 1, 'ws': 2}.get(st[0], 0) if 'rename' in kinds else 0)
+    return steps
 
 
 GEN_KINDS = ['ws', 'rename', 'swap', 'extract', 'debug', 'partial']
@@ -957,6 +965,7 @@ def worker(ctx):
     mine = [e for i, e in enumerate(entries) if i % ctx.nshards == ctx.shard]
     rng.shuffle(mine)
     ci = 0
+    bad = set()                 # corpus inputs that do not compile as they are: visited once
     sampled = False
     while not ctx.expired():
         cases = []
@@ -974,6 +983,9 @@ def worker(ctx):
                 break
             e = mine[ci % len(mine)]
             ci += 1
+            if e['src'] in bad:
+                continue
             cases.append({'source': 'corpus', 'file': e['file'], 'src': e['src'], 'steps': random_steps(rng, CORPUS_KINDS)})
-        run_batch(ctx, cases)
+        run_batch(ctx, cases, bad)
     ctx.stat('corpus_inputs_visited', min(ci, len(mine)))
+    ctx.stat('corpus_inputs_that_compile', min(ci, len(mine)) - len(bad))
